@@ -329,7 +329,18 @@ class ClientDriver(ReorgDriver):
     def client(self, i):
         while len(self.cl) <= i:
             self.cl.append(self.w.new_client(f'c{len(self.cl)}', addr=(f'8.8.{len(self.cl)}.4', None)))
+            self.cl[-1].on_any_reply = self.any_reply
         return self.cl[i]
+
+    def any_reply(self, c, req, rec):
+        """C16, whatever the moment: no request - here: well-formed ones racing with blocks, reorganisations
+        and mempool changes - is answered with an internal error."""
+        err = rec.get('error')
+        if isinstance(err, dict) and err.get('code') == -32603:
+            self.probe('c16.internal_error_replies')
+            self.violate('C16', 'internal_error.race', f'{req["method"] if req else "?"} '
+                         f'{str(req["params"])[:80] if req else ""} was answered with an internal error while the '
+                         f'chain / mempool was changing: {str(err)[:120]}')
 
     def ensure_connected(self, c):
         if c.connected and c.conn.alive:
@@ -1075,7 +1086,7 @@ class StaleFamily(SubsFamily):
                                             'read_utxos', 'lookup_hashXs', 'lookup_utxos']), 0.5)
             if rng.random() < 0.6:
                 # only reads done on behalf of client requests are slow: the block processor overtakes them
-                k['stall_boost'] += ('RPCSession',)
+                k['stall_boost'] += ('RPCSession', rng.choice(['release', 'timed']))
         nclients = rng.randint(1, 2)
         for c in range(nclients):
             plan.append(dict(op='c_connect', c=c))
@@ -1100,6 +1111,11 @@ class StaleFamily(SubsFamily):
                 # be parked on a slow disk, and a fork replacing those blocks right afterwards
                 n = rng.randint(1, 2)
                 tq = round(rng.uniform(5.5, 11.0), 2)
+                if rng.random() < 0.6:
+                    k['stall_boost'] = (rng.choice(['fs_tx_hashes_at_blockheight', 'fs_tx_hashes_at_blockheight',
+                                                    'read_headers']), rng.choice([0.4, 0.8]), 'RPCSession',
+                                        rng.choice(['release', 'timed']))
+                    k['stall_p'] = 0.0
                 plan.append(dict(op='mine', n=n, ntx=ntx_list(rng, n), seed=rng.getrandbits(32)))
                 for _ in range(rng.randint(1, 3)):
                     plan.append(dict(op='c_query', c=rng.randrange(nclients),
@@ -1114,6 +1130,12 @@ class StaleFamily(SubsFamily):
                 # of by-height requests for the replaced heights (stale file contents at the same offsets)
                 d = rng.randint(1, 3)
                 tq = round(rng.uniform(0.5, 3.0), 2)
+                if rng.random() < 0.6:
+                    # the reads these requests need are slow, nothing else is: the reorg overtakes them
+                    k['stall_boost'] = (rng.choice(['fs_tx_hashes_at_blockheight', 'fs_tx_hashes_at_blockheight',
+                                                    'read_headers']), rng.choice([0.4, 0.8]), 'RPCSession',
+                                        rng.choice(['release', 'timed']))
+                    k['stall_p'] = 0.0
                 plan.append(dict(op='fork', depth=d, extra=rng.choice([0, 1, 1, 2]), ntx=ntx_list(rng, d + 2),
                                  remine=rng.choice([0.0, 0.5]), at=tq, seed=rng.getrandbits(32)))
                 for _ in range(rng.randint(1, 2)):
@@ -1122,6 +1144,11 @@ class StaleFamily(SubsFamily):
                                      back=rng.randrange(d + 1), h=0, pos=rng.randrange(4),
                                      merkle=rng.random() < 0.3, at=tq,
                                      rep=rng.choice([8, 16, 30]), every=rng.choice([0.05, 0.2, 0.45])))
+                if rng.random() < 0.4:
+                    # a second fork while the storm goes on: the caches are cold again in between
+                    plan.append(dict(op='fork', depth=rng.randint(1, 2), extra=1, ntx=ntx_list(rng, 3),
+                                     remine=rng.choice([0.0, 0.5]), at=round(tq + rng.uniform(2.0, 9.0), 2),
+                                     seed=rng.getrandbits(32)))
             plan.append(dict(op='settle'))
         return dict(family=self.fam, knobs=k, plan=plan)
 
@@ -1139,7 +1166,7 @@ class ProofsFamily(StaleFamily):
             k, plan = case['knobs'], case['plan']
             nclients = 1 + max([op['c'] for op in plan if 'c' in op] or [0])
             k['stall_boost'] = (rng.choice(['read_headers', 'fs_tx_hashes_at_blockheight', 'read_headers']),
-                                rng.choice([0.4, 0.8]), 'RPCSession')
+                                rng.choice([0.4, 0.8]), 'RPCSession', rng.choice(['release', 'timed']))
             k['stall_p'] = 0.0      # only reads on behalf of client requests are slow: the reorg overtakes them
             d = rng.choice([1, 1, 2])
             big = lambda: rng.randint(200, 270)     # noqa: E731
